@@ -54,9 +54,29 @@ func TestC04StackArgs(t *testing.T) {
 		w = w.When(&P2{X: k, Y: k * 3}, arg.Any()).Return(1000 + k)
 	}
 	rounds := vmon.EnvInt("VERIF_C04_STACKROUNDS", 200)
-	var bad, total int64
+	var bad, stale, total int64
 	var mu sync.Mutex
 	var first []string
+	// goroutines born and grown all the time: released stack memory is taken over and overwritten at once
+	stopChurn := make(chan struct{})
+	var churnWG sync.WaitGroup
+	for c := 0; c < vmon.EnvInt("VERIF_C04_STACKCHURN", 4); c++ {
+		churnWG.Add(1)
+		go func(c int) {
+			defer churnWG.Done()
+			for i := 0; ; i++ {
+				select {
+				case <-stopChurn:
+					return
+				default:
+				}
+				done := make(chan struct{})
+				go func() { descendFP(20+(i*7+c)%200, func() { scribble(i) }); close(done) }()
+				<-done
+			}
+		}(c)
+	}
+	defer func() { close(stopChurn); churnWG.Wait() }()
 	for r := 0; r < rounds; r++ {
 		var wg sync.WaitGroup
 		for g := 0; g < 32; g++ {
@@ -65,14 +85,20 @@ func TestC04StackArgs(t *testing.T) {
 				defer wg.Done()
 				k := g % 8
 				d := (r*32 + g) % 220
-				var got int
-				descendFP(d, func() { got = callFP(k, d) })
+				var got, again int
+				descendFP(d, func() { got = callFP(k, d); again = callFP(k, d) })
 				atomic.AddInt64(&total, 1)
 				if got != 1000+k {
-					atomic.AddInt64(&bad, 1)
+					if again == 1000+k {
+						// wrong once, right when the same call is repeated on the stack as it is now: the argument
+						// was read through an address that had been left behind by a stack move
+						atomic.AddInt64(&stale, 1)
+					} else {
+						atomic.AddInt64(&bad, 1)
+					}
 					mu.Lock()
 					if len(first) < 5 {
-						first = append(first, fmt.Sprintf("k=%d depth=%d got %d", k, d, got))
+						first = append(first, fmt.Sprintf("k=%d depth=%d got %d, repeated %d, want %d", k, d, got, again, 1000+k))
 					}
 					mu.Unlock()
 				}
@@ -85,11 +111,23 @@ func TestC04StackArgs(t *testing.T) {
 	rep.Stat("stack_argument_calls", total)
 	rep.Class("stackargs/when-by-pointee")
 	rep.Class("stackargs/depth-sweep")
-	if bad > 0 {
-		rep.Violate("C04/pointer-into-caller-stack", fmt.Sprintf("%d of %d calls passing a pointer to a caller-frame object selected the wrong clause: %v", bad, total, first), nil)
+	rep.Stat("stack_argument_calls_wrong_once_right_when_repeated", stale)
+	if bad > 0 || stale*100 > total {
+		rep.Violate("C04/wrong-clause-selected", fmt.Sprintf("%d of %d calls passing a pointer to a caller-frame object selected the wrong clause also when repeated (%d only the first time): %v", bad, total, stale, first), nil)
+	} else if stale > 0 {
+		rep.Violate("C04/pointer-into-caller-stack", fmt.Sprintf("%d of %d calls passing a pointer to a caller-frame object selected the wrong clause once and the right one when repeated at once: %v", stale, total, first), nil)
 	}
 	rep.Stat("stack_argument_objects_in_caller_frame", atomic.LoadInt64(&onStack))
 	if atomic.LoadInt64(&onStack) == 0 {
 		rep.Inconclusive = "the argument objects were not allocated in the caller frame"
 	}
+}
+
+//go:noinline
+func scribble(i int) int {
+	var junk [48]P2
+	for k := range junk {
+		junk[k] = P2{X: -1 - i, Y: -7}
+	}
+	return junk[i%48].X
 }
